@@ -100,6 +100,19 @@ func genThemedLibJob(r *Rand, k int, allowLoad bool, theme string) LibJob {
 	if r.Chance(1, 6) {
 		// yaml decoder without header pre-processing, sometimes on a comment-only input
 		j.InFmt = "yaml-nopre"
+	} else if r.Chance(1, 12) {
+		// the second YAML decoder of the library (goccy): plain documents only
+		j.InFmt = "goccy"
+		j.Input = Bytes((&DocGen{R: r.Fork("goccy"), Plain: true}).Doc(DocID(r, k, 0)).YAML())
+		j.Expr = Pick(r, []string{".", ".id", ".a", ".c", ".d", "keys", ".e[].k"})
+		j.DecSlot, j.EncSlot = r.Intn(2), r.Intn(2)
+		return j
+	} else if r.Chance(1, 12) {
+		j.InFmt = "csv-auto"
+		j.Input = Bytes("id,a,b,c\n" + DocID(r, k, 0) + ",1,\"{x: 1}\",\"[1, 2]\"\n" + DocID(r, k, 1) + ",true,plain,3.5\n")
+		j.Expr = Pick(r, []string{".", ".[0]", ".[] | .b", "map(.c)", ".[1].a"})
+		j.DecSlot, j.EncSlot = r.Intn(2), r.Intn(2)
+		return j
 	}
 	j.Input = Bytes(genLibInput(r.Fork("in"), j.InFmt, k))
 	j.DecSlot = r.Intn(2)
